@@ -1,4 +1,5 @@
 CONSTANTS Fields = {"A","B"}  MaxRules = 2  Depths = {0,1,2}  Strategies = {"dfs"}  MaxSols = {1}  BodyKinds = {"one","and"}  MaxOps = 3
+CONSTANT Bads = {FALSE}
 CONSTANT InitProg <- P1
 INIT Init
 NEXT Next
